@@ -1,5 +1,5 @@
 SPECIFICATION Spec
-CONSTANTS DimSeq <- Dims2 MaskSeq <- Masks13 CliSeq <- Clis1 DestSeq <- Dest3 PathSeq <- Path2 Toks <- Tok01
+CONSTANTS DimSeq <- Dims2 MaskSeq <- MasksF CliSeq <- Clis1 DestSeq <- Dest3 PathSeq <- Path2 Toks <- Tok01
   Impl = "cxx" WithAll = FALSE Acts <- ActsCxx MaxTab = 2
   ItemSet <- None MaxItems = 0 GapSet <- None EdgeGaps <- None
   Letters <- None MaxLetters = 0 LetterGaps <- None NodeSet <- None MaxNodes = 0
